@@ -783,6 +783,8 @@ class Canon:
     # -- driver -----------------------------------------------------------------------------
     def run(self):
         fn = copy.deepcopy(self.fn)
+        for n in ast.walk(fn):
+            n.__dict__.pop("_done", None)
         if self.helpers and self.depth == 0:
             fn.body = self._inline_helpers(_strip_doc(fn.body), self._local_names(fn))
         fn = _Pre().visit(fn)
@@ -823,6 +825,8 @@ class Canon:
     def sub(self, node):
         if node is None:
             return None
+        if getattr(node, "_done", False):
+            return node
         out = _Subst(self).visit(copy.deepcopy(node))
         if self.avail:
             avail = self.avail
@@ -868,12 +872,33 @@ class Canon:
         if isinstance(s, ast.For):
             return [s.iter]
         if isinstance(s, ast.If):
-            return [s.test]
+            tests = [s.test]
+            while len(s.orelse) == 1 and isinstance(s.orelse[0], ast.If):     # elif: evaluated at most once, right after
+                s = s.orelse[0]
+                tests.append(s.test)
+            return tests
         if isinstance(s, ast.With):
             return [it.context_expr for it in s.items]
         if isinstance(s, (ast.While, ast.Try, ast.FunctionDef, ast.ClassDef, ast.AsyncFunctionDef)):
             return []
         return [s]
+
+    def _reach(self, s, name):
+        """number of loads of `name` in statement `s` that are evaluated at most once and before anything in `s` can have
+        had an effect: the header, and -- for an `if` -- what its branches do before their first barrier"""
+        if isinstance(s, ast.If):
+            return self._count(s.test, name)[0] + self._reach_block(s.body, name) + self._reach_block(s.orelse, name)
+        return sum(self._count(h, name)[0] for h in self._header(s))
+
+    def _reach_block(self, stmts, name):
+        total = 0
+        for st in stmts:
+            total += self._reach(st, name)
+            if name in self._level_stores(st):
+                break                      # re-bound: later loads mean another value
+            if not self._is_free(st) and not self._is_guard(st):
+                break
+        return total
 
     def _is_free(self, s):
         """a statement that is no barrier: a plain binding of names with a pure right-hand side"""
@@ -898,9 +923,8 @@ class Canon:
             rebinds = isinstance(s, ast.Assign) and name in self._level_stores(s)
             plain, inner = self._count(s.value if rebinds else s, name)
             if plain or inner:
-                hp = sum(self._count(h, name)[0] for h in (self._header(s) if not rebinds else [s.value]))
-                hi = sum(self._count(h, name)[1] for h in (self._header(s) if not rebinds else [s.value]))
-                if inner or plain != hp or hi or barrier_before:
+                hp = self._count(s.value, name)[0] if rebinds else self._reach(s, name)
+                if inner or plain != hp or barrier_before:
                     inline_ok = False
                 total += plain + inner
             if rebinds:
@@ -1027,6 +1051,13 @@ class Canon:
             return out
         if isinstance(s, ast.If):
             test = self.sub(s.test)
+            chain = s
+            while len(chain.orelse) == 1 and isinstance(chain.orelse[0], ast.If):
+                # the test of an `elif` is evaluated before any branch has run: it sees what the `if` test sees
+                chain = chain.orelse[0]
+                t = self.sub(chain.test)
+                t._done = True
+                chain.test = t
             self.flush(out, self._stored_in(s))
             self.avail = {}
             env0 = dict(self.env)
